@@ -1,10 +1,21 @@
 //! featdrv: decodes every frame of a corpus file (one hex frame per line) with whatever
-//! feature selection rtcm-rs was built with and prints the Debug rendering of the result.
+//! feature selection rtcm-rs was built with and prints, per frame: index, message number, a 64-bit FNV-1a hash of
+//! the complete Debug rendering of the decoded message, the first 240 characters of that rendering, and what this
+//! configuration's encoder makes of the decoded message.
 use rtcm_rs::prelude::*;
 
 fn unhex(s: &str) -> Vec<u8> {
     let s = s.trim();
     (0..s.len() / 2).filter_map(|i| u8::from_str_radix(&s[2 * i..2 * i + 2], 16).ok()).collect()
+}
+
+fn fnv(s: &str) -> u64 {
+    let mut h: u64 = 0xcbf29ce484222325;
+    for b in s.bytes() {
+        h ^= b as u64;
+        h = h.wrapping_mul(0x100000001b3);
+    }
+    h
 }
 
 fn main() {
@@ -21,7 +32,9 @@ fn main() {
                     Ok(fr) => format!("reencoded:{}", fr.len()),
                     Err(e) => format!("refused:{:?}", e),
                 };
-                println!("{}\t{:?}\t{:?}\t{}", i, mf.message_number(), m, re);
+                let d = format!("{:?}", m);
+                let short: String = d.chars().take(240).collect();
+                println!("{}\t{:?}\t{:016x}\t{}\t{}", i, mf.message_number(), fnv(&d), short, re);
             }
             Err(e) => println!("{}\tREJECTED {:?}", i, e),
         }
